@@ -47,6 +47,19 @@ example : (0 : Nat) < 16 := by decide
 theorem plain_go_decoder_flba_size0 (src : Bytes) :
     goDecFLBA 0 src = .panic ∧ goBssDecFLBA 0 [] src = .err := by simp [goDecFLBA, goBssDecFLBA]
 
+/-- BYTE_ARRAY: the Go decoder (mirror of plain.go:77-94, tight source buffer) returns values exactly
+    on the streams the SPEC decoder reads, and then the same values: it reads every conformant
+    stream, and never returns values for another one (it may panic there: `goDecByteArray_panics_on_overrun`). -/
+theorem plain_go_decoder_byte_array_complete (src : Bytes) (vs : List Bytes) :
+    goDecByteArray src = .ok vs ↔ specDecByteArray src = some vs := by
+  constructor
+  · exact PqModel.Props.C04Plain.goDecByteArray_sound src vs
+  · intro h
+    obtain ⟨e, hl⟩ := specDecByteArrayFuel_inv _ _ _ h
+    rw [e]
+    exact PqModel.Props.C04Plain.goDecByteArray_roundtrip vs hl
+example : specDecByteArray [1, 0, 0, 0, 7] = some [[7]] := by decide
+
 /-! ## BYTE_STREAM_SPLIT: Go decoders = SPEC decoder on every input -/
 
 theorem bss_spec_forms_agree (k : Nat) (bs : Bytes) : bssSpecDecIdx k bs = bssSpecDec k bs :=
@@ -113,6 +126,9 @@ theorem go_short_index_stream_is_zero_extended {w : Nat} {ys bs : List Nat} (hw 
     goNewIndexedPage ys stale n = ys ++ List.replicate (n - ys.length) 0 := by
   refine ⟨by simpa [goDecodeDict] using PqModel.Props.C04Rle.goDecodeInt32_of_valid hw h, ?_⟩
   rw [goNewIndexedPage_eq, List.take_of_length_le (by omega)]
+example : ValidRleGoW 2 [1, 1, 1] [6, 1] ∧ [1, 1, 1].length < 12 :=
+  ⟨⟨[.rle 3 [1]], by simp [Run.WF], by simp [Run.GoOKW, leNat], by simp [runsValues, Run.values, leNat],
+    by simp [serialize, Run.bytes, uvarint_small]⟩, by decide⟩
 
 /-- … which the format does not allow: witnesses on which the SPEC reader refuses the page (the
     bit-width byte alone; one run of 5 at width 0; 3 × id 1 at width 2 — all for 12 values) while
@@ -130,14 +146,14 @@ theorem short_index_stream_not_conformant :
 section
 variable {α : Type}
 
-/-- READ side. `decS`/`decG` are the PLAIN SPEC / Go decoders of the column type (they agree by the
-    theorems above). A conformant dictionary page (`numDict` values) and a conformant index page
+/-- READ side. `decS`/`decG` are the PLAIN SPEC / Go decoders of the column type; on a conformant
+    dictionary page they return the same entries `d` (`plain_go_decoder_*`,
+    `plain_go_decoder_byte_array_complete`). A conformant dictionary page (`numDict` values) and a conformant index page
     (`ValidRleGoW`, `n` values taken) are read by the Go path as by the SPEC reader; when the SPEC
     reader returns values (all ids inside the dictionary) the Go path returns the same values,
     for every content of the recycled index buffer. -/
 theorem go_dict_column_of_valid (decS : Bytes → Option (List α)) (decG : Bytes → GoRes (List α))
-    (hdec : ∀ bs, decG bs = ofOption (decS bs))
-    (dictPage : Bytes) (d : List α) (hd : decS dictPage = some d)
+    (dictPage : Bytes) (d : List α) (hd : decS dictPage = some d) (hg : decG dictPage = .ok d)
     {w : Nat} {ys bs : List Nat} (hw : w ≤ 32) (h : ValidRleGoW w ys bs) (n : Nat) (hn : n ≤ ys.length)
     (stale : List Nat) :
     specDictColumn decS d.length dictPage n (w :: bs) = lookupAll d (ys.take n) ∧
@@ -146,7 +162,9 @@ theorem go_dict_column_of_valid (decS : Bytes → Option (List α)) (decG : Byte
   obtain ⟨h1, h2, h3⟩ := go_index_page_of_valid hw h n hn stale
   constructor
   · simp [specDictColumn, hd, h1]
-  · simp [goDictColumn, hdec, hd, ofOption, h2, h3]
+  · simp [goDictColumn, hg, h2, h3]
+example : specDecFixed 4 [7, 0, 0, 0, 9, 0, 0, 0] = some [7, 9] ∧ goDecFixed 4 [7, 0, 0, 0, 9, 0, 0, 0] = .ok [7, 9] := by
+  decide
 
 variable [DecidableEq α]
 
@@ -156,8 +174,9 @@ variable [DecidableEq α]
     every value list the SPEC reader and the Go read path give the values back, for every buffer
     content. -/
 theorem dict_column_roundtrip (enc : List α → Bytes) (decS : Bytes → Option (List α))
-    (decG : Bytes → GoRes (List α)) (hdec : ∀ bs, decG bs = ofOption (decS bs))
+    (decG : Bytes → GoRes (List α))
     (xs : List α) (hrt : decS (enc (insertAll [] xs).1) = some (insertAll [] xs).1)
+    (hrtG : decG (enc (insertAll [] xs).1) = .ok (insertAll [] xs).1)
     (hl : xs.length ≤ 2 ^ 31 - 1) (stale : List Nat) :
     ∃ page, encodeDict (insertAll [] xs).2 = .ok page ∧
       specDictColumn decS (insertAll [] xs).1.length (enc (insertAll [] xs).1) xs.length page = some xs ∧
@@ -180,7 +199,9 @@ theorem dict_column_roundtrip (enc : List α → Bytes) (decS : Bytes → Option
     · simp [specDictColumn, hrt, hlen ▸ r1, hlook]
     · have hpage : goNewIndexedPage (insertAll [] xs).2 stale xs.length = (insertAll [] xs).2 := by
         rw [goNewIndexedPage_eq, ← hlen]; simp
-      simp [goDictColumn, hdec, hrt, ofOption, r2, hpage, hlook, okOrPanic]
+      simp [goDictColumn, hrtG, r2, hpage, hlook, okOrPanic]
+example : specDecFixed 4 (encFixed 4 (insertAll [] [5, 5, 6]).1) = some (insertAll [] [5, 5, 6]).1 ∧
+    goDecFixed 4 (encFixed 4 (insertAll [] [5, 5, 6]).1) = .ok (insertAll [] [5, 5, 6]).1 := by decide
 
 end
 
@@ -192,9 +213,6 @@ theorem dict_column_roundtrip_fixed (k : Nat) (hk : 0 < k) (xs : List Nat) (hx :
         = some xs ∧
       goDictColumn (goDecFixed k) (insertAll [] xs).1.length (encFixed k (insertAll [] xs).1) xs.length page stale
         = .ok xs := by
-  apply dict_column_roundtrip (encFixed k) (specDecFixed k) (goDecFixed k) (goDecFixed_eq_spec k hk) xs _ hl
-  apply specDecFixed_encFixed k hk
-  intro x hx'
   have hsub : ∀ (ys d : List Nat), (∀ y ∈ d, y < 2 ^ (8 * k)) → (∀ y ∈ ys, y < 2 ^ (8 * k)) →
       ∀ y ∈ (insertAll d ys).1, y < 2 ^ (8 * k) := by
     intro ys
@@ -212,16 +230,19 @@ theorem dict_column_roundtrip_fixed (k : Nat) (hk : 0 < k) (xs : List Nat) (hx :
         rcases hz with hz | rfl
         · exact hd z hz
         · exact hys z (by simp)
-  exact hsub xs [] (by simp) hx x hx'
+  have hrt := specDecFixed_encFixed k hk (insertAll [] xs).1 (hsub xs [] (by simp) hx)
+  exact dict_column_roundtrip (encFixed k) (specDecFixed k) (goDecFixed k) xs hrt
+    (by rw [goDecFixed_eq_spec k hk, hrt]; rfl) hl stale
 example : (∀ x ∈ [7, 7, 9], x < 2 ^ (8 * 4)) ∧ [7, 7, 9].length ≤ 2 ^ 31 - 1 := by decide
 
-/-- instance: BYTE_ARRAY columns (Go decoder = mirror of `DecodeByteArray`; it is only known to agree
-    with the SPEC decoder when it returns values, so the Go half is stated through the round trip) -/
-theorem dict_column_roundtrip_byte_array_spec (xs : List Bytes) (hx : ∀ x ∈ xs, x.length < 2 ^ 32)
-    (hl : xs.length ≤ 2 ^ 31 - 1) :
+/-- instance: BYTE_ARRAY columns (Go decoder = mirror of `DecodeByteArray`) -/
+theorem dict_column_roundtrip_byte_array (xs : List Bytes) (hx : ∀ x ∈ xs, x.length < 2 ^ 32)
+    (hl : xs.length ≤ 2 ^ 31 - 1) (stale : List Nat) :
     ∃ page, encodeDict (insertAll [] xs).2 = .ok page ∧
       specDictColumn specDecByteArray (insertAll [] xs).1.length (encByteArray (insertAll [] xs).1) xs.length page
-        = some xs := by
+        = some xs ∧
+      goDictColumn goDecByteArray (insertAll [] xs).1.length (encByteArray (insertAll [] xs).1) xs.length page stale
+        = .ok xs := by
   have hsub : ∀ (ys d : List Bytes), (∀ y ∈ d, y.length < 2 ^ 32) → (∀ y ∈ ys, y.length < 2 ^ 32) →
       ∀ y ∈ (insertAll d ys).1, y.length < 2 ^ 32 := by
     intro ys
@@ -240,9 +261,8 @@ theorem dict_column_roundtrip_byte_array_spec (xs : List Bytes) (hx : ∀ x ∈ 
         · exact hd z hz
         · exact hys z (by simp)
   have hrt := PqModel.Props.C04Plain.plain_roundtrip_byte_array (insertAll [] xs).1 (hsub xs [] (by simp) hx)
-  obtain ⟨page, h1, h2, _⟩ := dict_column_roundtrip encByteArray specDecByteArray
-    (fun bs => ofOption (specDecByteArray bs)) (fun _ => rfl) xs hrt hl []
-  exact ⟨page, h1, h2⟩
+  have hrtG := PqModel.Props.C04Plain.goDecByteArray_roundtrip (insertAll [] xs).1 (hsub xs [] (by simp) hx)
+  exact dict_column_roundtrip encByteArray specDecByteArray goDecByteArray xs hrt hrtG hl stale
 example : (∀ x ∈ [[], [1, 2], [1, 2]], (x : Bytes).length < 2 ^ 32) := by decide
 
 end PqModel.Props.C04PlainDict
